@@ -141,6 +141,13 @@ func c05OutCheck(c *ev.Collector, k c05OutCase) {
 			wantErr.Meta().Set("Grpc-Message", "upstream%20said")
 			wantErr.Meta().Set("Grpc-Status-Details-Bin", "CA4SBHVwc3Q")
 			wantErr.Meta().Set("X-Upstream", "u1")
+			// ... and, as every error that a client decoded does, the headers of the HTTP
+			// response it arrived in
+			wantErr.Meta().Set("Content-Type", "application/json")
+			wantErr.Meta().Set("Content-Length", "55")
+			wantErr.Meta().Set("Date", "Mon, 28 Sep 2026 10:00:00 GMT")
+			wantErr.Meta().Set("Accept-Encoding", "gzip")
+			wantErr.Meta().Set("Grpc-Accept-Encoding", "gzip")
 		}
 	}
 	respPayloads := make([][]byte, len(k.Sizes))
